@@ -9,7 +9,7 @@ PROPS = {
     "C02": {"profiles": ["C02"], "count": (400, 6000), "mc": [], "gen": []},
     "C03": {"profiles": ["C03"], "count": (400, 6000), "mc": [], "gen": []},
     "C04": {"profiles": ["C04"], "count": (400, 6000), "mc": [], "gen": []},
-    "C05": {"profiles": ["C05"], "count": (300, 5000), "mc": [], "gen": []},
+    "C05": {"profiles": ["C05"], "count": (300, 5000), "mc": [], "gen": [{"name": "Gen_C05", "has_thorough": True, "workers": 8}]},
     "C06": {"profiles": ["C06"], "count": (300, 5000), "mc": [], "gen": []},
     "C07": {"profiles": ["C07"], "count": (300, 5000), "mc": [], "gen": []},
     "C08": {"profiles": ["C08"], "count": (300, 5000), "mc": [], "gen": []},
@@ -20,7 +20,7 @@ PROPS = {
     "C13": {"profiles": ["C13"], "count": (300, 5000), "mc": [], "gen": []},
     "C14": {"profiles": ["C14"], "count": (300, 5000), "mc": [], "gen": []},
     "C15": {"profiles": ["C15"], "count": (300, 5000), "mc": [], "gen": []},
-    "C16": {"profiles": ["C16"], "count": (300, 4000), "mc": [], "gen": []},
+    "C16": {"profiles": ["C16"], "count": (150, 3000), "mc": [], "gen": [{"name": "Gen_C16"}], "exhaustive": True},
     "C17": {"profiles": ["C17", "C13", "C06"], "count": (500, 8000), "mc": [], "gen": []},
     "C18": {"profiles": ["C18"], "count": (300, 4000), "mc": [], "gen": []},
     "C19": {"profiles": ["C19"], "count": (1500, 20000), "mc": [], "gen": []},
